@@ -47,7 +47,7 @@ class LTen:
     def ite(self, c, other):
         a, b = self.shape, other.shape
         if len(a.lead) != len(b.lead) or (a.tail is None) != (b.tail is None):
-            raise Unsupported("if-then-else over tensors of different symbolic structure")
+            return MixedTensor(c, self, other)
         lead = [x if (isinstance(x, int) and isinstance(y, int) and x == y) else z3.If(c, lift(x), lift(y)) for x, y in zip(a.lead, b.lead)]
         tail = a.tail if a.tail is None or a.tail.eq(b.tail) else z3.If(c, a.tail, b.tail)
         r = LTen(V.Shape(lead, tail), lambda idx: z3.If(c, self.elem(idx), other.elem(idx)), fresh=self.fresh and other.fresh)
@@ -64,6 +64,17 @@ class LTen:
 
     def __repr__(self):
         return f"LTen({self.shape})"
+
+
+class MixedTensor:
+    """if-then-else of two tensors whose shapes have different symbolic structure: it can be carried around (stored in
+    a dictionary), but not inspected."""
+
+    def __init__(self, c, a, b):
+        self.c, self.a, self.b = c, a, b
+
+    def sym_getattr(self, interp, name):
+        raise Unsupported("inspection of a tensor whose shape structure depends on a symbolic condition")
 
 
 def numel_of(shape: V.Shape):
